@@ -28,6 +28,7 @@ from pathlib import Path
 HOME = Path(os.environ.get('VF_HOME', Path(__file__).resolve().parent.parent))
 REPO = os.environ.get('VF_REPO', '/repo')
 NPROC = int(os.environ.get('VF_NPROC', '16'))
+EXAMPLE_TIMEOUT_S = 90
 
 
 # ----------------------------------------------------------------- utilities
@@ -58,15 +59,21 @@ class CaseTimeout(BaseException):
 
 @contextlib.contextmanager
 def watchdog(seconds: float = 10.0):
+    """per-case alarm; nests (an inner watchdog restores the outer one's remaining time).
+    The timer repeats every 0.25 s after it first expires: if the exception is lost (raised inside a gc
+    callback or __del__, where Python ignores it) the alarm fires again until it propagates."""
     def onalarm(signum, frame):
         raise CaseTimeout()
     old = signal.signal(signal.SIGALRM, onalarm)
-    signal.setitimer(signal.ITIMER_REAL, seconds)
+    t0 = time.time()
+    prev = signal.setitimer(signal.ITIMER_REAL, seconds, 0.25)[0]
     try:
         yield
     finally:
         signal.setitimer(signal.ITIMER_REAL, 0)
         signal.signal(signal.SIGALRM, old)
+        if prev:
+            signal.setitimer(signal.ITIMER_REAL, max(0.01, prev - (time.time() - t0)), 0.25)
 
 
 def reset_tatsu_state():
@@ -167,7 +174,13 @@ def hyp_run(sh: Shard, strategy, body, max_examples, label='t'):
     def t(v):
         if sh.out_of_budget():
             return
-        body(v)
+        try:
+            with watchdog(EXAMPLE_TIMEOUT_S):
+                body(v)
+        except CaseTimeout:
+            # a whole generated example (generation + compile + all its inputs) did not finish: recorded, never a verdict
+            sh.note('example exceeded %ds (inconclusive)' % EXAMPLE_TIMEOUT_S)
+            sh.notes['last timeout traceback: ' + ' | '.join(traceback.format_exc().splitlines()[-14:])[:1200]] += 1
     t()
 
 
